@@ -1,6 +1,7 @@
 package oracle
 
 import (
+	"encoding/hex"
 	"fmt"
 	"regexp"
 	"strings"
@@ -149,6 +150,35 @@ func c07State(st *xstate.State, fam *c07Family, withCompl bool, rep *core.Report
 	return bad
 }
 
+// c07StateGroups: the group registries only (per source, per prefix, halves).
+func c07StateGroups(st *xstate.State, fam *c07Family, quick bool, rep *core.Report) [][2]string {
+	full, p := zl.Lint(st.Obj, lint.GlobalRegistry())
+	if p != nil || full == nil {
+		return nil
+	}
+	var bad [][2]string
+	for _, nr := range fam.groups {
+		if quick && !strings.HasPrefix(nr.Name, "include:") && !strings.HasPrefix(nr.Name, "half:") {
+			continue // quick: the per-source partition and the two halves of the name list
+		}
+		o, err := zl.Parse(st.Seed.Kind, st.DER)
+		if err != nil {
+			return nil
+		}
+		part, p := zl.Lint(o, nr.Reg)
+		if rep != nil {
+			rep.Inc("filtered_runs")
+			rep.Inc("validated")
+		}
+		if p != nil || part == nil {
+			bad = append(bad, [2]string{"C07|panic_filtered_only", fmt.Sprintf("panic under %s but not with the full registry: %v", nr.Name, p)})
+			continue
+		}
+		bad = append(bad, c07Compare(full, part, fam.want(nr, st.Seed.Kind), nr.Name)...)
+	}
+	return bad
+}
+
 func checkC07(ctx *core.Ctx, rep *core.Report) {
 	fam, err := buildC07Family()
 	if err != nil {
@@ -169,6 +199,25 @@ func checkC07(ctx *core.Ctx, rep *core.Report) {
 		}
 		rep.Sample(2, map[string]interface{}{"seed": st.Seed.Name, "path": st.Path})
 	})
+	// list-shape changes (delete / duplicate / swap / grow / duplicate-and-modify) of the (lint, status) cover of the corpus
+	// under the group registries: which lints run before which differs between a filtered and the full run, so a lint that
+	// edits the object (or a cache inside it) for the ones after it shows here
+	cover := pickSeeds(all, 1<<30)
+	quick := ctx.Quick()
+	xstate.Explore(ctx, rep, xstate.Options{Seeds: cover, Depth: 1, Only: func(d string) bool {
+		if quick { // quick: of the duplicate-and-modify edits only the string-level ones (names, URLs, addresses)
+			return xstate.Structural(d) || (strings.Contains(d, ":dm") && strings.Contains(d, ":str:"))
+		}
+		return xstate.Structural(d) || strings.Contains(d, ":dm")
+	}}, func(st *xstate.State) {
+		if len(st.Path) == 0 {
+			return
+		}
+		for _, b := range c07StateGroups(st, fam, quick, rep) {
+			rep.Violate(b[0], b[1]+" [seed "+st.Seed.Name+" path "+strings.Join(st.Path, ",")+"]", st.Replay())
+		}
+	})
+	c07ConfigHistories(ctx, rep, all)
 	// every seed itself (k = 0) with the complement family as well
 	rest := all
 	xstate.Explore(ctx, rep, xstate.Options{Seeds: rest, Depth: 0}, func(st *xstate.State) {
@@ -191,4 +240,109 @@ func replayC07(rp map[string]interface{}) (string, error) {
 		return bad[0][0] + ": " + bad[0][1], nil
 	}
 	return "", nil
+}
+
+// c07Configs: the empty configuration and two documents that give every field of every configurable lint
+// (discovered at run time) a non-default value.
+func c07Configs() []string {
+	cls := discoverConfigurable()
+	doc := func(pick func(vals []interface{}) interface{}) string {
+		var b strings.Builder
+		for _, cl := range cls {
+			fmt.Fprintf(&b, "[%s]\n", cl.Name)
+			for _, f := range cl.Fields {
+				if vals := altValues(f); len(vals) > 0 {
+					fmt.Fprintf(&b, "%s = %s\n", f.Name, tomlLit(pick(vals)))
+				}
+			}
+			b.WriteString("\n")
+		}
+		return b.String()
+	}
+	return []string{doc(func(v []interface{}) interface{} { return v[0] }), "", doc(func(v []interface{}) interface{} { return v[len(v)-1] }), ""}
+}
+
+// c07ConfigHistories: filtered registries live long — a bulk pipeline derives one and lints with it for hours, changing
+// its configuration in between. A small family of registries is derived ONCE per process and every corpus object is
+// linted through each of them and through the full registry under the configuration sequence A, empty, B, empty (the
+// same configuration on both sides each time). Whatever a filtered registry keeps from an earlier call — a pinned
+// lint instance, a configuration applied once — shows as a difference to the full run at the next step.
+func c07ConfigHistories(ctx *core.Ctx, rep *core.Report, all []seeds.Seed) {
+	g := lint.GlobalRegistry()
+	pristine := snapshotRegistry(g)
+	var regs []NamedReg
+	names := g.Names()
+	seenSrc := map[lint.LintSource]bool{}
+	for _, cl := range discoverConfigurable() {
+		regs = append(regs, mustFilter("only:"+cl.Name, lint.FilterOptions{IncludeNames: []string{cl.Name}}))
+		for _, d := range pristine {
+			if d.Name == cl.Name && !seenSrc[d.Source] {
+				seenSrc[d.Source] = true
+				regs = append(regs, mustFilter("include:"+string(d.Source), lint.FilterOptions{IncludeSources: lint.SourceList{d.Source}}))
+			}
+		}
+	}
+	h := len(names) / 2
+	regs = append(regs, mustFilter("half:1", lint.FilterOptions{IncludeNames: names[:h]}), mustFilter("half:2", lint.FilterOptions{IncludeNames: names[h:]}),
+		mustFilter("name:^e_", lint.FilterOptions{NameFilter: regexp.MustCompile("^e_")}))
+	var cfgs []lint.Configuration
+	texts := c07Configs()
+	for _, t := range texts {
+		c, err := lint.NewConfigFromString(t)
+		if err != nil {
+			rep.InternalError("C07 configuration document does not load: %v\n%s", err, t)
+			return
+		}
+		cfgs = append(cfgs, c)
+	}
+	defer func() {
+		if empty, err := lint.NewConfigFromString(""); err == nil {
+			g.SetConfiguration(empty)
+		}
+	}()
+	want := map[string]map[string]bool{}
+	for i := range all {
+		if !ctx.Mine(uint64(i)) {
+			continue
+		}
+		sd := &all[i]
+		for ci, cfg := range cfgs {
+			g.SetConfiguration(cfg)
+			o, err := zl.Parse(sd.Kind, sd.DER)
+			if err != nil {
+				break
+			}
+			full, p := zl.Lint(o, g)
+			if p != nil || full == nil {
+				continue
+			}
+			for _, nr := range regs {
+				nr.Reg.SetConfiguration(cfg)
+				o2, _ := zl.Parse(sd.Kind, sd.DER)
+				part, p := zl.Lint(o2, nr.Reg)
+				rep.Inc("states")
+				rep.Inc("transitions")
+				rep.Inc("validated")
+				rep.Inc("config_history_runs")
+				if p != nil || part == nil {
+					continue
+				}
+				k := nr.Name + "|" + sd.Kind.String()
+				if want[k] == nil {
+					w := map[string]bool{}
+					sel, _ := refFilter(pristine, nr.Opts)
+					for _, d := range sel {
+						if d.Kind == sd.Kind.String() {
+							w[d.Name] = true
+						}
+					}
+					want[k] = w
+				}
+				for _, b := range c07Compare(full, part, want[k], nr.Name) {
+					rep.Violate(b[0], fmt.Sprintf("%s [object %s, step %d of the configuration sequence (non-default A, empty, non-default B, empty) on a long-lived filtered registry; same configuration on both sides]", b[1], sd.Name, ci+1),
+						map[string]interface{}{"op": "config_history", "seed": sd.Name, "kind": sd.Kind.String(), "der_hex": hex.EncodeToString(sd.DER), "registry": nr.Name, "step": ci + 1, "documents": texts})
+				}
+			}
+		}
+	}
 }
